@@ -1,3 +1,4 @@
+import Rp2.Proofs.ComputeWindow
 import Rp2.Proofs.PropsA
 /-! # C10 — date filters only hide rows; they never change the figures shown -/
 namespace Rp2.C10
@@ -8,4 +9,22 @@ theorem view_is_filter {α} (day : α → Int) (fromD toD : Option Int) (l : Lis
     viewOf day fromD toD l =
       l.filter (fun x => (match toD with | none => true | some t => decide (day x ≤ t)) &&
                          (match fromD with | none => true | some f => decide (f ≤ day x))) := viewOf_eq_filter day fromD toD l hmono
+/-- **on the `compute` model (= ComputedData)**: the fractions shown for a window are the fractions of the one computation over the
+    whole history — which does not take the window as an argument: lot matching always starts from the beginning — cut at the
+    to-date and filtered by the from-date; pairing, amounts and figures are therefore identical to the unfiltered run -/
+theorem model_window_only_hides (asset : String) (acctName : Nat → String) (period : Int) (allowNeg : Bool) (fromD toD : Option Int)
+    (sched : List (Int × Method)) (ins : List InTx) (outs : List OutTx) (intras : List IntraTx) (cd : Computed)
+    (h : compute asset acctName period allowNeg fromD toD sched ins outs intras = .ok cd) :
+    ∃ fs, computeFractions sched ins outs intras = .ok fs ∧
+      cd.fracs.map (·.f) = (cutAt (fun f : Fraction => f.ev.ts.day) toD fs).filter
+        (fun f => match fromD with | none => true | some d => decide (d ≤ f.ev.ts.day)) :=
+  compute_fracs asset acctName period allowNeg fromD toD sched ins outs intras cd h
+/-- under `LocalDatesMonotone`: exactly the fractions whose own date lies in the window, both bounds inclusive -/
+theorem model_window_is_filter (asset : String) (acctName : Nat → String) (period : Int) (allowNeg : Bool) (fromD : Option Int) (t : Int)
+    (sched : List (Int × Method)) (ins : List InTx) (outs : List OutTx) (intras : List IntraTx) (cd : Computed)
+    (h : compute asset acctName period allowNeg fromD (some t) sched ins outs intras = .ok cd)
+    (hmono : ∀ fs, computeFractions sched ins outs intras = .ok fs → fs.Pairwise (fun a b => a.ev.ts.day ≤ b.ev.ts.day)) :
+    ∃ fs, computeFractions sched ins outs intras = .ok fs ∧
+      cd.fracs.map (·.f) = fs.filter (fun f => decide (f.ev.ts.day ≤ t) && (match fromD with | none => true | some d => decide (d ≤ f.ev.ts.day))) :=
+  compute_fracs_window asset acctName period allowNeg fromD t sched ins outs intras cd h hmono
 end Rp2.C10
